@@ -220,6 +220,21 @@ def pair_laws(ctx, st, S, T, want_sym=False):
         ctx.valid()
         if not (is_num(b4) and is_num(w4)) or b4 != t * b or abs(w4 - t * w) > WTOL * t * max(1.0, w):
             bad("tiny-scale", "value is not c * d after scaling both diagrams by c = 2^-43", [b4, w4], [t * b, t * w])
+    # variant 4 (smaller strata): the same VALUES in different dtypes on the two sides (integer array against
+    # a fractional float array): symmetric, and equal to the all-float call; the scaling law across dtypes
+    if k <= 8 and X and Y:
+        import persim
+
+        Yh = [[0.5 * p[0] + 0.25, 0.5 * p[1] + 0.25] for p in Y]
+        Xi = np.array(X, dtype=np.int64).reshape(-1, 2)
+        bf, wf = dists(ctx, X, Yh)
+        for which, fn, ref_, tol_ in (("bottleneck", persim.bottleneck, bf, 0.0), ("wasserstein", persim.wasserstein, wf, wtol(wf))):
+            v1, _ = call_warn(ctx, fn, Xi, arr(Yh))
+            v2, _ = call_warn(ctx, fn, arr(Yh), Xi)
+            ctx.valid(2)
+            if not (is_num(v1) and is_num(v2)) or abs(v1 - ref_) > tol_ or abs(v2 - ref_) > tol_:
+                bad("mixed-dtype-symmetry", "%s of an integer array and a fractional float array depends on the argument order / differs from the all-float call" % which,
+                    [v1, v2], ref_)
     if want_sym:
         b3, w3 = dists(ctx, Y, X)
         ctx.valid()
